@@ -14,6 +14,28 @@ mod smoke;
 #[cfg(kani)]
 mod c04_access;
 #[cfg(kani)]
+mod c20_textures;
+#[cfg(kani)]
+mod c15_containers;
+#[cfg(kani)]
+mod c06_text;
+#[cfg(kani)]
+mod c01_roundtrip;
+#[cfg(kani)]
+mod c03_ops;
+#[cfg(kani)]
+mod c18_asset;
+#[cfg(kani)]
+mod c14_localize;
+#[cfg(kani)]
+mod c05_parsers;
+#[cfg(kani)]
+mod lz_compress;
+#[cfg(kani)]
+mod c11_decompress;
+#[cfg(kani)]
+mod c11_family;
+#[cfg(kani)]
 mod c19_pixels;
 #[cfg(kani)]
 mod c03_kernels;
